@@ -1006,6 +1006,20 @@ func (r *Runtime) checkObjectCoercible(v Value) {
 	}
 }
 
+// floatToInt64Modular converts a finite float64 to an integer modulo 2^64 (truncating the fraction). Unlike a plain
+// int64(f) conversion the result is well-defined (and is what ToInt32, ToUint32, etc. require) when |f| >= 2^63.
+func floatToInt64Modular(f float64) int64 {
+	if f >= -9223372036854775808.0 && f < 9223372036854775808.0 {
+		return int64(f)
+	}
+	// f is an integer here (a multiple of 2^11), math.Mod is exact
+	m := math.Mod(f, 18446744073709551616.0)
+	if m < 0 {
+		m += 18446744073709551616.0
+	}
+	return int64(uint64(m))
+}
+
 func toInt8(v Value) int8 {
 	v = v.ToNumber()
 	if i, ok := v.(valueInt); ok {
@@ -1015,7 +1029,7 @@ func toInt8(v Value) int8 {
 	if f, ok := v.(valueFloat); ok {
 		f := float64(f)
 		if !math.IsNaN(f) && !math.IsInf(f, 0) {
-			return int8(int64(f))
+			return int8(floatToInt64Modular(f))
 		}
 	}
 	return 0
@@ -1030,7 +1044,7 @@ func toUint8(v Value) uint8 {
 	if f, ok := v.(valueFloat); ok {
 		f := float64(f)
 		if !math.IsNaN(f) && !math.IsInf(f, 0) {
-			return uint8(int64(f))
+			return uint8(floatToInt64Modular(f))
 		}
 	}
 	return 0
@@ -1084,7 +1098,7 @@ func toInt16(v Value) int16 {
 	if f, ok := v.(valueFloat); ok {
 		f := float64(f)
 		if !math.IsNaN(f) && !math.IsInf(f, 0) {
-			return int16(int64(f))
+			return int16(floatToInt64Modular(f))
 		}
 	}
 	return 0
@@ -1099,7 +1113,7 @@ func toUint16(v Value) uint16 {
 	if f, ok := v.(valueFloat); ok {
 		f := float64(f)
 		if !math.IsNaN(f) && !math.IsInf(f, 0) {
-			return uint16(int64(f))
+			return uint16(floatToInt64Modular(f))
 		}
 	}
 	return 0
@@ -1114,7 +1128,7 @@ func toInt32(v Value) int32 {
 	if f, ok := v.(valueFloat); ok {
 		f := float64(f)
 		if !math.IsNaN(f) && !math.IsInf(f, 0) {
-			return int32(int64(f))
+			return int32(floatToInt64Modular(f))
 		}
 	}
 	return 0
@@ -1129,7 +1143,7 @@ func toUint32(v Value) uint32 {
 	if f, ok := v.(valueFloat); ok {
 		f := float64(f)
 		if !math.IsNaN(f) && !math.IsInf(f, 0) {
-			return uint32(int64(f))
+			return uint32(floatToInt64Modular(f))
 		}
 	}
 	return 0
